@@ -48,13 +48,32 @@ Fixpoint step_obs (prev : bytes) (tr : list (wstate * out)) : list val :=
 
 (* histories with reopen: (treopen ..) closes the handle and opens the file again with the same roots and
    options (Crash.reopen = store.ResumableVersion + store.Resume); a failed reopen ends the history *)
-Inductive xop := XOp (op : sop) | XReopen.
+(* ReadWrite.DeleteBlock (always an error) and ReadWrite.HashOnRead (a no-op) are stutter steps: they are
+   not operations of the map, the state and the file are untouched *)
+Inductive xop := XOp (op : sop) | XReopen | XDelete (c : bytes) | XHashOnRead (enable : bool).
 Fixpoint v_xops (l : list val) : list xop :=
   match l with
   | [] => []
   | v :: t => if tag_is v "reopen" then XReopen :: v_xops t
+              else if tag_is v "delete" then XDelete (vB (vnth 1 v)) :: v_xops t
+              else if tag_is v "hashonread" then XHashOnRead (vbool (vnth 1 v)) :: v_xops t
               else match v_sop v with Some op => XOp op :: v_xops t | None => v_xops t end
   end.
+Definition stutter_res (x : xop) : out := match x with XDelete _ => OErr EOther | _ => ONil end.
+(* the map history inside a history with stutter steps, and the results put back in place *)
+Fixpoint x_sops (ops : list xop) : list sop :=
+  match ops with
+  | [] => []
+  | XOp op :: t => op :: x_sops t
+  | _ :: t => x_sops t
+  end.
+Fixpoint weave (ops : list xop) (rs : list out) : list out :=
+  match ops with
+  | [] => []
+  | XOp _ :: t => match rs with r :: rs' => r :: weave t rs' | [] => [] end
+  | x :: t => stutter_res x :: weave t rs
+  end.
+Definition no_reopen (x : xop) : bool := match x with XReopen => false | _ => true end.
 
 Section XTrace.
   Variable hdrdec : bytes -> option (list bytes * N).
@@ -69,13 +88,17 @@ Section XTrace.
         | inl s' => (ws_file s', ONil) :: xtrace s' t
         | inr (e, dv) => [(d_file dv, OErr e)]
         end
+    | x :: t => (ws_file s, stutter_res x) :: xtrace s t
     end.
 End XTrace.
 
 Fixpoint xstep_obs (prev : bytes) (tr : list (bytes * out)) : list val :=
   match tr with
   | [] => []
-  | (file, o) :: t => VL [v_out o; v_of_bool (negb (bytes_eqb prev file))] :: xstep_obs file t
+  | (file, o) :: t =>
+      (* third field: does storage.IsNotFound classify the error as "not found" *)
+      VL [v_out o; v_of_bool (negb (bytes_eqb prev file)); v_of_bool (match o with OErr ENotFound => true | _ => false end)]
+      :: xstep_obs file t
   end.
 
 Definition run_storemap (input : val) : val :=
@@ -135,6 +158,12 @@ Fixpoint check_steps (f : front) (o : wopts) (roots : list bytes) (cls : string)
        (C04_refines_map_resumed); Resume may rewrite the CARv2 header, so the file may change here *)
     if val_eqb (vnth 0 ob) (VL [VT "nil"]) then check_steps f o roots cls (mkm (m_blocks m) false false) ops' obs'
     else fail "reopen-refused" cls
+  | XDelete _ :: ops', ob :: obs' | XHashOnRead _ :: ops', ob :: obs' =>
+    (* stutter steps: the fixed answer, and the file as it was *)
+    if vbool (vnth 1 ob) then fail "stutter-step-changed-file" cls
+    else if negb (val_eqb (vnth 0 ob) (v_out (stutter_res (match ops with x :: _ => x | [] => XReopen end))))
+    then fail "stutter-step-result" cls
+    else check_steps f o roots cls m ops' obs'
   | XOp op :: ops', ob :: obs' =>
     let '(m', expect) := spec_step f o roots m op in
     let got := vnth 0 ob in
@@ -146,7 +175,10 @@ Fixpoint check_steps (f : front) (o : wopts) (roots : list bytes) (cls : string)
                   | OpKeys => val_eqb (canon_keys (v_out expect)) (canon_keys got)
                   | _ => val_eqb (v_out expect) got
                   end in
-      if same then check_steps f o roots cls m' ops' obs'
+      (* storage.IsNotFound must say "not found" exactly for the lookups of keys the map does not hold *)
+      let want_nf := match expect with OErr ENotFound => true | _ => false end in
+      if same && negb (Bool.eqb want_nf (vbool (vnth 2 ob))) then fail "notfound-classification" cls
+      else if same then check_steps f o roots cls m' ops' obs'
       else fail (String.append (op_name op) "-differs-from-map") cls
   | _, _ => VT "ok"
   end.
@@ -165,6 +197,7 @@ Definition prop_storemap (input obs : val) : val :=
             pre: tnone | b<bytes> = the file at the output path before the writer is used (path target)
             faults (optional 7th field): the fault script of the output target, as in kind "store"
             ops: (tonput id once) (thas key) (tput key data) (tclose)
+                 (topen h) (twrite h data) (tcommit h key) -- the BlockWriteOpener path on writer h
    output = ((res log bytes exists directbytes) ...)  per step:
             res = result of the call; log = ((id len) ...) callback invocations made by the call;
             bytes / exists = the output stream (or file) bytes and whether the file exists after the step;
@@ -182,10 +215,15 @@ Definition v_dop (op : val) : option dop :=
   else if tag_is op "put" then Some (DPut (vB (vnth 1 op)) (vB (vnth 2 op)))
   else if tag_is op "close" then Some DClose
   else None.
-Fixpoint v_dops (l : list val) : list dop :=
+Definition v_dxop (op : val) : option dxop :=
+  if tag_is op "open" then Some (XOpen (vN (vnth 1 op)))
+  else if tag_is op "write" then Some (XWrite (vN (vnth 1 op)) (vB (vnth 2 op)))
+  else if tag_is op "commit" then Some (XCommit (vN (vnth 1 op)) (vB (vnth 2 op)))
+  else match v_dop op with Some o => Some (XD o) | None => None end.
+Fixpoint v_dops (l : list val) : list dxop :=
   match l with
   | [] => []
-  | v :: t => match v_dop v with Some op => op :: v_dops t | None => v_dops t end
+  | v :: t => match v_dxop v with Some op => op :: v_dops t | None => v_dops t end
   end.
 
 Definition v_log (l : list (N * N)) : val := VL (map (fun e => VL [VN (fst e); VN (snd e)]) l).
@@ -203,19 +241,23 @@ Definition direct_step (c : dcfg) (closed : bool) (dir : option wstate) (op : do
   | _ => dir
   end.
 
-Fixpoint run_dsteps (c : dcfg) (st : dstate) (dir : option wstate) (ops : list dop) : list val :=
+Fixpoint run_dsteps (c : dcfg) (xs : dxstate) (dir : option wstate) (ops : list dxop) : list val :=
   match ops with
   | [] => []
   | op :: t =>
-    let '(st', o) := d_step c st op in
-    let dir' := direct_step c (d_closed st) dir op in
-    VL [v_out (do_res o); v_log (do_log o); VB (d_bytes c st'); v_of_bool (d_exists c st');
+    let '(xs', o) := dx_step c xs op in
+    (* the direct writer gets the Put an opener step amounts to (a first commit), and plain ops *)
+    let dir' := match fst (dx_eff (dx_bufs xs) op) with
+                | Some dop => direct_step c (d_closed (dx_st xs)) dir dop
+                | None => dir
+                end in
+    VL [v_out (do_res o); v_log (do_log o); VB (d_bytes c (dx_st xs')); v_of_bool (d_exists c (dx_st xs'));
         VB (match dir' with Some s => ws_file s | None => [] end)]
-    :: run_dsteps c st' dir' t
+    :: run_dsteps c xs' dir' t
   end.
 
 Definition run_deferred (input : val) : val :=
-  VL (run_dsteps (v_dcfg input) d_init None (v_dops (vL (vnth 4 input)))).
+  VL (run_dsteps (v_dcfg input) dx_init None (v_dops (vL (vnth 4 input)))).
 
 (* the property, on what the implementation did:
    lazy      -- until a Put has been issued on a writer that was not closed: no byte on the stream; the
@@ -225,9 +267,17 @@ Definition run_deferred (input : val) : val :=
    identical -- from the first such Put on, the output equals the output of the direct writer (which
                 writes to a fresh target) after every step, whatever was at the path before. *)
 Fixpoint check_dsteps (c : dcfg) (cls : string) (acc : list (N * bool) * bool) (started : bool) (prev : bytes)
-         (ops : list dop) (obs : list val) : val :=
-  match ops, obs with
-  | op :: ops', ob :: obs' =>
+         (bufs : dbufs) (xops : list dxop) (obs : list val) : val :=
+  match xops, obs with
+  | xop :: ops', ob :: obs' =>
+    match dx_eff bufs xop with
+    | (None, bufs') =>
+      (* opening / writing / a used committer: the deferred writer is not involved *)
+      if negb (val_eqb (v_out (dx_idle_res bufs xop)) (vnth 0 ob)) then fail "opener-step-result" cls
+      else if negb (val_eqb (VL []) (vnth 1 ob)) then fail "callback-log-differs" cls
+      else if negb (bytes_eqb (vB (vnth 2 ob)) prev) then fail "uncommitted-opener-wrote" cls
+      else check_dsteps c cls acc started prev bufs' ops' obs'
+    | (Some op, bufs') =>
     let closed := snd acc in
     let res := vnth 0 ob in
     let bytes := vB (vnth 2 ob) in
@@ -246,7 +296,8 @@ Fixpoint check_dsteps (c : dcfg) (cls : string) (acc : list (N * bool) * bool) (
             && negb (val_eqb res (VL [VT "err"; VT "closed"])) then fail "not-closed-after-close" cls
     else if closed && negb (bytes_eqb bytes prev) then fail "output-changed-after-close" cls
     else if started' && negb (bytes_eqb bytes (vB (vnth 4 ob))) then fail "differs-from-direct-writer" cls
-    else check_dsteps c cls (live_step acc op) started' bytes ops' obs'
+    else check_dsteps c cls (live_step acc op) started' bytes bufs' ops' obs'
+    end
   | _, _ => VT "ok"
   end.
 
@@ -254,4 +305,4 @@ Definition prop_deferred (input obs : val) : val :=
   let c := v_dcfg input in
   let cls := String.append (match dc_target c with TPath => "path" | TStream => "stream" end)
                            (if w_v1 (eff_opts c) then "-v1" else "-v2") in
-  check_dsteps c cls ([], false) false (pre_bytes c) (v_dops (vL (vnth 4 input))) (vL obs).
+  check_dsteps c cls ([], false) false (pre_bytes c) [] (v_dops (vL (vnth 4 input))) (vL obs).
